@@ -142,6 +142,10 @@ structure FnDef where
 structure Prog where
   fns : List FnDef
   consts : List (String × Val)
+  /-- the enum definitions of the program (an enum literal names its type only) -/
+  enums : List (String × Variants) := []
+
+def Prog.enum? (p : Prog) (name : String) : Option Variants := (p.enums.find? (·.1 == name)).map (·.2)
 
 def Prog.fn? (p : Prog) (name : String) : Option FnDef := p.fns.find? (·.name == name)
 
